@@ -12,7 +12,7 @@
     Definedness (Coq's x/0 = 0 and sqrt of a negative = 0 are NOT the code's inf/nan): length <> 0, angle <> 0 (finding F8 of C09:
     the code returns NaN there), (1+pz)^2 - py^2 > 0, |px| < px_norm, cos(angle+phi1)^2 + gp*alpha >= 0, x2_t2 + x2_t3 <> 0 (c1 is
     evaluated for every particle), (Lcu, Lcv) <> (0,0); collected in [bb_defined]. *)
-From Coq Require Import Reals.
+From Coq Require Import Reals ZArith.
 From Cheetah Require Import Bmadx.Coords Bmadx.DriftX Bmadx.Tdc.
 Open Scope R_scope.
 
@@ -130,3 +130,51 @@ Definition bend_bmadx_track (fen fex : bool) (b : bend_par) (E0 m : R) (v : cpar
   to_cheetah (cb_p0c E0 m) m (bendx_bmad fen fex b (cb_p0c E0 m) m (to_bmad E0 m v)).
 Definition bend_bmadx_track_b (sel : bool) (qd : quadrant) (zero : bool) (fen fex : bool) (b : bend_par) (E0 m : R) (v : cpart) : cpart :=
   to_cheetah (cb_p0c E0 m) m (bendx_bmad_b sel qd zero fen fex b (cb_p0c E0 m) m (to_bmad E0 m v)).
+
+(** ================================================================ the body after the repair of finding F70
+    (bend angles below -pi: arctan2 wraps, theta_p off by 4 pi).  The repaired `_bmadx_body` inserts, after theta_p,
+        theta_p = theta_p - 4*pi*torch.round((theta_p - angle)/(4*pi))
+    and is otherwise the code modelled above.  The definitions above are the code BEFORE the repair (the _refuted witness is about
+    them); which of the two the working tree computes is decided on every run by the correspondence harness from the status of F70. *)
+
+(** torch.round: nearest integer, ties to even ([up] is the stdlib's integer strictly above) *)
+Definition rnd (x : R) : R :=
+  let fz := (up x - 1)%Z in let d := x - IZR fz in
+  if Rlt_dec d (1 / 2) then IZR fz
+  else if Rlt_dec (1 / 2) d then IZR (fz + 1)
+  else if Z.even fz then IZR fz else IZR (fz + 1).
+
+Section BodyFixed.
+Variables (L ang : R).
+Section AfterF.
+Variables (x2 x px py pz : R).
+(* [kr]: the value of torch.round((theta_p - angle)/(4 pi)) *)
+Definition bb_thpf_b (qd : quadrant) (kr : R) : R := bb_thp_b L ang x2 x px py pz qd - 4 * PI * kr.
+Definition bb_kr (qd : quadrant) : R := rnd ((bb_thp_b L ang x2 x px py pz qd - ang) / (4 * PI)).
+Definition bb_Lpf_b (qd : quadrant) (kr : R) (zero : bool) : R := bb_Lc L ang x2 x / bx_sinc_b zero (bb_thpf_b qd kr / 2).
+Definition bb_pxff_b (qd : quadrant) (kr : R) : R := bb_n py pz * sin (ang + bb_phi1 px py pz - bb_thpf_b qd kr).
+End AfterF.
+
+Definition bendx_body_fixed_b (sel : bool) (qd : quadrant) (kr : R) (zero : bool) (p0c m : R) (q : bpart) : bpart :=
+  let x := bx q in let px := bpx q in let y := by_ q in let py := bpy q in let z := bz q in let pz := bpz q in
+  let x2 := bb_x2_b L ang sel x px py pz in
+  let Lp := bb_Lpf_b x2 x px py pz qd kr zero in
+  mkb x2 (bb_pxff_b x2 x px py pz qd kr) (y + py * Lp / bb_n py pz) py
+      (z + bb_beta pz p0c m * L / bb_beta0 p0c m - (1 + pz) * Lp / bb_n py pz) pz.
+
+(* the masks / rounded value as the repaired code computes them *)
+Definition bb_krq (q : bpart) : R :=
+  bb_kr (bb_x2 L ang (bx q) (bpx q) (bpy q) (bpz q)) (bx q) (bpx q) (bpy q) (bpz q) (bb_quadrant L ang q).
+Definition bb_zerof (q : bpart) : bool :=
+  let x2 := bb_x2 L ang (bx q) (bpx q) (bpy q) (bpz q) in
+  is0 (bb_thpf_b x2 (bx q) (bpx q) (bpy q) (bpz q) (bb_quadrant L ang q) (bb_krq q) / 2).
+Definition bendx_body_fixed (p0c m : R) (q : bpart) : bpart :=
+  bendx_body_fixed_b (bb_sel ang (bpx q) (bpy q) (bpz q)) (bb_quadrant L ang q) (bb_krq q) (bb_zerof q) p0c m q.
+End BodyFixed.
+
+Definition bendx_bmad_fixed (fen fex : bool) (b : bend_par) (p0c m : R) (q : bpart) : bpart :=
+  off_unset 0 0 (bd_tilt b)
+    (bendx_exit fex b (bendx_body_fixed (bd_L b) (bd_ang b) p0c m (bendx_entrance fen b (off_set 0 0 (bd_tilt b) q)))).
+(** the whole of the repaired Dipole._track_bmadx in Cheetah coordinates *)
+Definition bend_bmadx_track_fixed (fen fex : bool) (b : bend_par) (E0 m : R) (v : cpart) : cpart :=
+  to_cheetah (cb_p0c E0 m) m (bendx_bmad_fixed fen fex b (cb_p0c E0 m) m (to_bmad E0 m v)).
